@@ -92,13 +92,40 @@ structure Summary where
   fields : List (Text × J)
 deriving Repr
 
-/-- sections up to and including the primary SRC -/
-def summarySections (env : Env) (creator : Text) : Nat → Rd (Option Text)
-  | 0 => pure none
+/-- `k in d` for a string `k` on a decoded JSON value: key of a dictionary, substring of a string, element of a list;
+    `none` = TypeError -/
+def jIn (k : Text) : J → Option Bool
+  | .obj l => some (objGet? l k).isSome
+  | .str t => some (isInfix k t)
+  | .arr l => some (l.any fun v => match v with | .str t => t == k | _ => false)
+  | _ => none
+
+/-- `d[k]` for a string `k`: `none` = KeyError (absent key) / TypeError (not a dictionary) -/
+def jItem (k : Text) : J → Option J
+  | .obj l => objGet? l k
+  | _ => none
+
+/-- `if "Error Details" in d: summary["Message"] = d["Error Details"]["Message"]` on the document `d` of the primary SRC:
+    the value of the `Message` member, if any; an exception of the look-ups leaves `parsePELSummary` -/
+def summaryMessage (d : J) : Rd (Option J) :=
+  match jIn (s "Error Details") d with
+  | none => Rd.fail .other
+  | some false => pure none
+  | some true =>
+    match (jItem (s "Error Details") d).bind (jItem (s "Message")) with
+    | some m => pure (some m)
+    | none => Rd.fail .other
+
+/-- sections up to and including the primary SRC: its reference code and its registry message, if any -/
+def summarySections (env : Env) (creator : Text) : Nat → Rd (Option Text × Option J)
+  | 0 => pure (none, none)
   | n+1 => do
     let h ← parseHeader
-    let (_, rc) ← decodeSection env creator h
-    if h.id = sidPS then pure rc else summarySections env creator n
+    let (j, rc) ← decodeSection env creator h
+    if h.id = sidPS then do
+      let msg ← summaryMessage j
+      pure (rc, msg)
+    else summarySections env creator n
 
 inductive SummaryOutcome where
   | summary (s : Summary) (plid : Nat) (src : Option Text)
@@ -115,13 +142,16 @@ def parseSummaryRd (env : Env) (cfg : SelCfg) : Rd SummaryOutcome := do
   if h2.id ≠ sidUH then pure .badHeader else do
   let (uhJ, uh) ← decodeUH env.T h2 ph.creator
   if !considerPEL uh.severity uh.actionFlags cfg then pure .filtered else do
-  let rc ← summarySections env ph.creator (ph.sectionCount - 2)
+  let (rc, msg) ← summarySections env ph.creator (ph.sectionCount - 2)
   let get (j : J) (k : String) : J := match j with
     | .obj l => (objGet? l (s k)).getD .null
     | _ => .null
   let fields : List (Text × J) :=
     (match rc with
       | some r => [kv "SRC" (jstr r)]
+      | none => []) ++
+    (match msg with
+      | some m => [kv "Message" m]
       | none => []) ++
     [kv "PLID" (jstr (ox (fmtHex 2 ph.plid))), kv "CreatorID" (get phJ "Creator Subsystem"),
      kv "Subsystem" (get uhJ "Subsystem"), kv "Commit Time" (jstr ph.commitTime),
